@@ -13,9 +13,12 @@ indentation are the trivia assignment `gaps T` read off the text itself — and 
 15. `print_string_spec_escape`        — where `print_string` and C07's `specEscape` rendering of a string agree (exactly).
 16. `printed_exec_is_c07_rendering`   — `text (print doc) = rDoc (gaps …) noShorthand doc` for every well-formed executable document.
 17. `C16_roundtrip_own_parser_exec`   — `parseOp (text (print doc)) = doc` up to positions.
-18. `printed_ts_is_c07_rendering_partial`, `C16_roundtrip_own_parser_ts_partial`, `…_tsext_partial`
-                                       — the same for type-system documents without a list that takes a leading `&` / `|`.
-19. `server_module_roundtrip_own_partial` — all layers with nitrogql's own parser as the reader.
+18. `printed_ts_is_c07_rendering_partial` — type-system documents without a list that takes a leading `&` / `|`: the text is
+                                         literally C07's `rTsDoc`;
+    `own_parser_reads_lead_renderings`  — C07's theorem extended to the renderings WITH those leading separators (which the
+                                         printer always writes);
+    `printed_ts_is_own_rendering`, `C16_roundtrip_own_parser_ts`, `…_tsext` — `parseTs (text (print doc)) = doc` up to positions.
+19. `server_module_roundtrip_own`     — all layers with nitrogql's own parser as the reader.
 -/
 namespace NitroVerif.C16Own
 open NitroVerif.Gql NitroVerif.GqlPrint NitroVerif.JsTemplate NitroVerif.Cook
@@ -92,62 +95,122 @@ example : sampleExec ≠ [] ∧ (∀ d ∈ sampleExec, WFDef d) ∧ strsQ (print
         intro c hc; cases hc; exact vn _ (by decide)
   · exact ⟨vn _ (by decide), by decide, vn _ (by decide), trivial, by simp, ⟨by simp, vn _ (by decide), trivial, trivial⟩, trivial⟩
 
-/-! ## 18. type-system documents (first stage: no list that takes a leading separator) -/
+/-! ## 18. type-system documents -/
 
-/-- For EVERY list of well-formed type-system items (`WFTsItem`: C07's side conditions) that contains no union extension
-    without members (`itemOK`: the printer writes `extend union U @d =`, open finding) and no `implements` list, union
-    member list or directive-location list (`noLeadItem`: there the printer writes the optional leading `&` / `|`, which
-    C07's renderings never do), and whose strings satisfy `strQ`: the text `TypeSystemDocument::print_graphql` writes IS
-    C07's rendering `rTsDoc (gaps T) doc`. -/
+/-- First stage (the literal statement "the printer's output is one of C07's renderings"): for EVERY list of well-formed
+    type-system items (`WFTsItem`: C07's side conditions) that contains no union extension without members (`itemOK`: the
+    printer writes `extend union U @d =`, open finding) and no `implements` list, union member list or directive-location
+    list (`noLeadItem`: there the printer writes the optional leading `&` / `|`, which C07's renderings `rTsDoc` never do),
+    and whose strings satisfy `strQ`: the text `TypeSystemDocument::print_graphql` writes IS C07's rendering
+    `rTsDoc (gaps T) doc`. -/
 theorem printed_ts_is_c07_rendering_partial (doc : List TsItem) (hwf : ∀ d ∈ doc, WFTsItem d)
     (hok : ∀ d ∈ doc, itemOK d = true) (hnl : ∀ d ∈ doc, noLeadItem d = true) (hq : strsQ (printTsDoc doc) = true) :
     rTsDoc (gaps (text (printTsDoc doc))) doc = text (printTsDoc doc) ∧ ∀ q, Ws (gaps (text (printTsDoc doc)) q) :=
   ⟨by simpa using own_text_ts_noLead doc hwf hok hnl hq [] (by simp), ws_gaps _⟩
 
-/-- print ∘ parse = id over nitrogql's own parser for such type-system documents (`NormalItem`: every item carries only the
-    components of its kind, as in C07's `_erase` theorem): the model of `parse_type_system_document` applied to the printed
-    text returns the document, up to positions. -/
-theorem C16_roundtrip_own_parser_ts_partial (doc : List TsItem) (hne : doc ≠ []) (hwf : ∀ d ∈ doc, WFTsItem d)
-    (hn : ∀ d ∈ doc, NormalItem d) (hok : ∀ d ∈ doc, itemOK d = true) (hnl : ∀ d ∈ doc, noLeadItem d = true)
-    (hq : strsQ (printTsDoc doc) = true) :
+example : (∀ d ∈ [TsItem.typeDef { kind := .scalar, name := "S", desc := some "s" }, .schemaDef { roots := [(.query, "Q", {})] }],
+      WFTsItem d ∧ itemOK d = true ∧ noLeadItem d = true) ∧
+    strsQ (printTsDoc [.typeDef { kind := .scalar, name := "S", desc := some "s" }, .schemaDef { roots := [(.query, "Q", {})] }]) = true := by
+  refine ⟨?_, by decide⟩
+  intro d hd
+  simp only [List.mem_cons, List.mem_nil_iff, or_false] at hd
+  rcases hd with rfl | rfl
+  · exact ⟨⟨validName_of_B (by decide), trivial, trivial⟩, by decide, by decide⟩
+  · refine ⟨⟨trivial, by simp, ?_⟩, by decide, by decide⟩
+    intro x hx
+    simp only [List.mem_singleton] at hx; subst hx
+    exact validName_of_B (by decide)
+
+/-- Second stage, the parser side: C07's `parse_render_type_system_document` ALSO holds for the renderings that write the
+    optional leading separator of every `implements` list (`implements & A & B`), union member list (`= | A | B`) and
+    directive-location list (`on | A | B`) — `DocParseL.rTsDoc`, the same text as C07's `rTsDoc` but for those
+    separators: for every non-empty list of well-formed items and EVERY trivia assignment `τ`, the model of
+    `parse_type_system_document` returns the document, every position being the true one (`DocParseL.wpTsDoc`), hence the
+    document itself up to positions. (Proved in `Lemmas/GqlPrintOwnLead*.lean` with C07's calculus; the `"&"?` / `"|"?` of
+    the grammar now succeeds.) -/
+theorem own_parser_reads_lead_renderings (τ : Trivia) (hτ : ∀ q, Ws (τ q)) (doc : List TsItem) (hne : doc ≠ [])
+    (hwf : ∀ d ∈ doc, WFTsItem d) :
+    parseTs (DocParseL.rTsDoc τ doc) = .ok (DocParseL.wpTsDoc τ (DocParseL.rTsDoc τ doc) doc) ∧
+    ((∀ d ∈ doc, NormalItem d) →
+      GqlTokens.eraseTsDoc (DocParseL.wpTsDoc τ (DocParseL.rTsDoc τ doc) doc) = GqlTokens.eraseTsDoc doc) :=
+  ⟨DocParseL.parseTs_rTsDoc τ hτ doc hne hwf, fun hn => DocParseL.tsErase_wpTsDoc τ _ doc hn⟩
+
+example : ∀ q : Nat, Ws ((fun _ => [] : Trivia) q) := fun _ => Ws.nil
+
+/-- the rendering with leading separators, canonical trivia -/
+example : DocParseL.rTsDoc (fun _ => [])
+    [.typeDef { kind := .object, name := "T", implements := [("I", {}), ("J", {})], dirs := [{ name := "d" }] },
+     .typeDef { kind := .union, name := "U", members := [("T", {}), ("V", {})] },
+     .directiveDef { name := "d", locations := ["OBJECT", "FIELD"] }] =
+    "type T implements &I&J@d union U=|T|V directive@d on |OBJECT|FIELD".toList := by decide
+
+/-- For EVERY list of well-formed type-system items without a member-less union extension (`itemOK`) whose strings satisfy
+    `strQ`: the text `TypeSystemDocument::print_graphql` writes IS the rendering with leading separators of the document
+    under the trivia read off the text (and that assignment is legal). -/
+theorem printed_ts_is_own_rendering (doc : List TsItem) (hwf : ∀ d ∈ doc, WFTsItem d)
+    (hok : ∀ d ∈ doc, itemOK d = true) (hq : strsQ (printTsDoc doc) = true) :
+    DocParseL.rTsDoc (gaps (text (printTsDoc doc))) doc = text (printTsDoc doc) ∧
+    ∀ q, Ws (gaps (text (printTsDoc doc)) q) :=
+  ⟨by simpa using own_text_ts doc hwf hok hq [] (by simp), ws_gaps _⟩
+
+/-- **`C16_roundtrip_own_parser_ts`** — print ∘ parse = id over nitrogql's own parser: for EVERY non-empty list of
+    well-formed type-system items (schema definition / extension, the six kinds of type definition and extension with
+    descriptions, directives, `implements` lists, fields, arguments, default values, members, values, input fields,
+    directive definitions) that carry only the components of their kind (`NormalItem`, as in C07), contain no member-less
+    union extension (`itemOK`) and only strings satisfying `strQ`: the model of `parse_type_system_document` applied to
+    the text the printer writes returns the document, up to positions. -/
+theorem C16_roundtrip_own_parser_ts (doc : List TsItem) (hne : doc ≠ []) (hwf : ∀ d ∈ doc, WFTsItem d)
+    (hn : ∀ d ∈ doc, NormalItem d) (hok : ∀ d ∈ doc, itemOK d = true) (hq : strsQ (printTsDoc doc) = true) :
     ∃ A, parseTs (text (printTsDoc doc)) = .ok A ∧ GqlTokens.eraseTsDoc A = GqlTokens.eraseTsDoc doc := by
-  obtain ⟨hr, hws⟩ := printed_ts_is_c07_rendering_partial doc hwf hok hnl hq
-  have := C07.parse_render_type_system_document_erase _ hws doc hne hwf hn
+  obtain ⟨hr, hws⟩ := printed_ts_is_own_rendering doc hwf hok hq
+  have := parseTs_lead_erase _ hws doc hne hwf hn
   rwa [hr] at this
 
 /-- the same for `TypeSystemOrExtensionDocument::print_graphql` (an extra line feed after every definition) -/
-theorem C16_roundtrip_own_parser_tsext_partial (doc : List TsItem) (hne : doc ≠ []) (hwf : ∀ d ∈ doc, WFTsItem d)
-    (hn : ∀ d ∈ doc, NormalItem d) (hok : ∀ d ∈ doc, itemOK d = true) (hnl : ∀ d ∈ doc, noLeadItem d = true)
-    (hq : strsQ (printTsExtDoc doc) = true) :
+theorem C16_roundtrip_own_parser_tsext (doc : List TsItem) (hne : doc ≠ []) (hwf : ∀ d ∈ doc, WFTsItem d)
+    (hn : ∀ d ∈ doc, NormalItem d) (hok : ∀ d ∈ doc, itemOK d = true) (hq : strsQ (printTsExtDoc doc) = true) :
     ∃ A, parseTs (text (printTsExtDoc doc)) = .ok A ∧ GqlTokens.eraseTsDoc A = GqlTokens.eraseTsDoc doc := by
-  have hr := own_text_tsext_noLead doc hwf hok hnl hq [] (by simp)
-  have := C07.parse_render_type_system_document_erase _ (ws_gaps (text (printTsExtDoc doc))) doc hne hwf hn
+  have hr := own_text_tsext doc hwf hok hq [] (by simp)
+  have := parseTs_lead_erase _ (ws_gaps (text (printTsExtDoc doc))) doc hne hwf hn
   simp only [List.nil_append] at hr
   rwa [hr] at this
 
-/-- a scalar, an object type with a described field with an argument and a default value, an enum, an input object, a schema
-    definition and two extensions, for the satisfiability of the hypotheses -/
+/-- a described scalar with a directive, an interface, an object type that implements it with a described field with an
+    argument and a default value, a union, an enum, an input object, a directive definition, a schema definition, a schema
+    extension, an enum extension and an object extension with an `implements` list — for the satisfiability of the
+    hypotheses -/
 def sampleTsOwn : List TsItem :=
   [.typeDef { kind := .scalar, name := "Date", desc := some "a date", dirs := [{ name := "specifiedBy", args := [("url", {}, .str "u" {})] }] },
-   .typeDef { kind := .object, name := "Q",
+   .typeDef { kind := .interface, name := "N", fields := [{ name := "id", ty := .nonNull (.named "ID" {}) }] },
+   .typeDef { kind := .object, name := "Q", implements := [("N", {})],
               fields := [{ name := "f", desc := some "field", args := [{ name := "x", ty := .named "Int" {}, default := some (.int "1" {}) }],
                            ty := .nonNull (.list (.named "Date" {}) {}) }] },
+   .typeDef { kind := .union, name := "U", members := [("Q", {}), ("R", {})] },
    .typeDef { kind := .enum, name := "E", values := [{ name := "A" }, { name := "B", dirs := [{ name := "deprecated" }] }] },
    .typeDef { kind := .input, name := "I", inputs := [{ name := "y", ty := .named "E" {} }] },
+   .directiveDef { name := "d", repeatable := true, locations := ["SCHEMA", "FIELD_DEFINITION"] },
    .schemaDef { roots := [(.query, "Q", {})] },
    .schemaExt { dirs := [{ name := "d" }] },
-   .typeExt { kind := .enum, name := "E", values := [{ name := "C" }] }]
+   .typeExt { kind := .enum, name := "E", values := [{ name := "C" }] },
+   .typeExt { kind := .object, name := "Q", implements := [("M", {})] }]
 
 example : sampleTsOwn ≠ [] ∧ (∀ d ∈ sampleTsOwn, WFTsItem d) ∧ (∀ d ∈ sampleTsOwn, NormalItem d) ∧
-    (∀ d ∈ sampleTsOwn, itemOK d = true) ∧ (∀ d ∈ sampleTsOwn, noLeadItem d = true) ∧
-    strsQ (printTsDoc sampleTsOwn) = true := by
+    (∀ d ∈ sampleTsOwn, itemOK d = true) ∧ strsQ (printTsDoc sampleTsOwn) = true ∧
+    strsQ (printTsExtDoc sampleTsOwn) = true := by
   have vn : ∀ w : List Char, validNameB w = true → validName w := fun w h => validName_of_B h
   refine ⟨by simp [sampleTsOwn], ?_, ?_, by decide, by decide, by decide⟩
   · intro d hd
     simp only [sampleTsOwn, List.mem_cons, List.mem_nil_iff, or_false] at hd
-    rcases hd with rfl | rfl | rfl | rfl | rfl | rfl | rfl
+    rcases hd with rfl | rfl | rfl | rfl | rfl | rfl | rfl | rfl | rfl | rfl | rfl
     · exact ⟨vn _ (by decide), ⟨⟨vn _ (by decide), vn _ (by decide), trivial, trivial⟩, trivial⟩, trivial⟩
-    · refine ⟨vn _ (by decide), trivial, by simp, ?_, Or.inr (by simp)⟩
+    · refine ⟨vn _ (by decide), trivial, by simp, ?_, Or.inr (Or.inr (by simp))⟩
+      intro f hf
+      simp only [List.mem_singleton] at hf; subst hf
+      exact ⟨vn _ (by decide), by simp, ⟨vn _ (by decide), rfl⟩, trivial⟩
+    · refine ⟨vn _ (by decide), trivial, ?_, ?_, Or.inr (by simp)⟩
+      · intro x hx
+        simp only [List.mem_singleton] at hx; subst hx
+        exact vn _ (by decide)
       intro f hf
       simp only [List.mem_singleton] at hf; subst hf
       refine ⟨vn _ (by decide), ?_, ⟨(by simp only [WF]; exact vn _ (by decide)), rfl⟩, trivial⟩
@@ -155,6 +218,10 @@ example : sampleTsOwn ≠ [] ∧ (∀ d ∈ sampleTsOwn, WFTsItem d) ∧ (∀ d 
       simp only [List.mem_singleton] at hv; subst hv
       exact ⟨vn _ (by decide), vn _ (by decide),
         (by intro d hd; cases hd; exact IntText.nz false '1' [] (by decide) (by simp)), trivial⟩
+    · refine ⟨vn _ (by decide), trivial, by simp, ?_⟩
+      intro x hx
+      simp only [List.mem_cons, List.mem_nil_iff, or_false] at hx
+      rcases hx with rfl | rfl <;> exact vn _ (by decide)
     · refine ⟨vn _ (by decide), trivial, ?_⟩
       intro v hv
       simp only [List.mem_cons, List.mem_nil_iff, or_false] at hv
@@ -165,6 +232,10 @@ example : sampleTsOwn ≠ [] ∧ (∀ d ∈ sampleTsOwn, WFTsItem d) ∧ (∀ d 
       intro v hv
       simp only [List.mem_singleton] at hv; subst hv
       exact ⟨vn _ (by decide), vn _ (by decide), (by intro d hd; cases hd), trivial⟩
+    · refine ⟨vn _ (by decide), by simp, by simp, ?_⟩
+      intro l hl
+      simp only [List.mem_cons, List.mem_nil_iff, or_false] at hl
+      rcases hl with rfl | rfl <;> decide
     · refine ⟨trivial, by simp, ?_⟩
       intro x hx
       simp only [List.mem_singleton] at hx; subst hx
@@ -174,26 +245,58 @@ example : sampleTsOwn ≠ [] ∧ (∀ d ∈ sampleTsOwn, WFTsItem d) ∧ (∀ d 
       intro v hv
       simp only [List.mem_singleton] at hv; subst hv
       exact ⟨vn _ (by decide), by decide, by decide, by decide, trivial⟩
+    · refine ⟨vn _ (by decide), trivial, ?_, by simp, Or.inl (by simp)⟩
+      intro x hx
+      simp only [List.mem_singleton] at hx; subst hx
+      exact vn _ (by decide)
   · intro d hd
     simp only [sampleTsOwn, List.mem_cons, List.mem_nil_iff, or_false] at hd
-    rcases hd with rfl | rfl | rfl | rfl | rfl | rfl | rfl <;> simp [NormalItem, KindNormal]
+    rcases hd with rfl | rfl | rfl | rfl | rfl | rfl | rfl | rfl | rfl | rfl | rfl <;> simp [NormalItem, KindNormal]
+
+/-- `itemOK` is necessary: the printed form of a union extension without members (`extend union U @d =`, open finding) is
+    rejected by nitrogql's own parser model too. And `strQ` is necessary in its double-quote part: a description holding
+    a double quote is written unescaped (open finding) and the printed text is rejected. -/
+theorem C16_roundtrip_own_parser_ts_counterexample :
+    (match parseTs (text (printTsDoc [.typeExt { kind := .union, name := "U", dirs := [{ name := "d" }] }])) with
+      | .ok _ => false
+      | _ => true) = true ∧
+    (match parseTs (text (printTsDoc [.typeDef { kind := .scalar, name := "S", desc := some "a\"b" }])) with
+      | .ok _ => false
+      | _ => true) = true := by
+  decide +kernel
+
+/-- The line-feed part of `strQ` is necessary over nitrogql's own parser (it is not a mere limit of the proof): a field
+    description `a⏎b` is printed as a block string whose second line carries the writer's indentation, and the parser model
+    — like the real parser, which returns block strings raw (finding t of C07; C16's open finding "multi-line string
+    re-read as a block string") — returns `a⏎··b`: parse ∘ print ≠ id on this document. (Over the specification's reader,
+    which applies `BlockStringValue`, the indentation is removed again: `print_block_lexes_indented`.) -/
+theorem C16_roundtrip_own_parser_block_counterexample :
+    (match parseTs (text (printTsDoc
+        [.typeDef { kind := .object, name := "T", fields := [{ name := "f", desc := some "a\nb", ty := .named "Int" {} }] }])) with
+      | .ok [.typeDef t] =>
+        (match t.fields with
+         | [f] => (match f.desc with
+                   | some s => s.toList == ['a', '\n', ' ', ' ', 'b']
+                   | none => false)
+         | _ => false)
+      | _ => false) = true := by
+  decide +kernel
 
 /-! ## 19. all layers, nitrogql's own parser as the reader -/
 
-/-- All layers together, for the `serverGraphqlOutput` module of EVERY checked document `d` that applies the two
-    nitrogql-only directives where the checker allows, and whose stripped form `d' = serverDoc d …` is non-empty, consists of
-    well-formed items (`WFTsItem`, `NormalItem`) without a member-less union extension and without a list that takes a
-    leading separator, and has only strings satisfying `strQ`:
+/-- **`server_module_roundtrip_own`** — all layers together, for the `serverGraphqlOutput` module of EVERY checked document
+    `d` that applies the two nitrogql-only directives where the checker allows, and whose stripped form
+    `d' = serverDoc d …` is non-empty, consists of well-formed items (`WFTsItem`, `NormalItem`) without a member-less union
+    extension, and has only strings satisfying `strQ`:
     (1) the module text is the wrapper around the template literal of the printed `d'`;
     (2) evaluating the template literal (ECMAScript cooking) succeeds, and the model of nitrogql's OWN
         `parse_type_system_document` applied to its value returns `d'` — the checked schema without the stripped
         directives — up to positions.
-    (That names are safe chunks for the template writer is not a hypothesis: it follows from `WFTsItem`.) -/
-theorem server_module_roundtrip_own_partial (d : TsDoc) (modelPlugin : Bool) (h1 : C16.OnlyOnScalars nitroName d)
+    (That names are safe chunks for the template writer is not a hypothesis here: it follows from `WFTsItem`.) -/
+theorem server_module_roundtrip_own (d : TsDoc) (modelPlugin : Bool) (h1 : C16.OnlyOnScalars nitroName d)
     (h2 : modelPlugin = true → C16.OnlyOnObjects modelName (Strip.stripDirective nitroName d))
     (hne : C16.serverDoc d modelPlugin ≠ []) (hwf : ∀ i ∈ C16.serverDoc d modelPlugin, WFTsItem i)
     (hn : ∀ i ∈ C16.serverDoc d modelPlugin, NormalItem i) (hok : ∀ i ∈ C16.serverDoc d modelPlugin, itemOK i = true)
-    (hnl : ∀ i ∈ C16.serverDoc d modelPlugin, noLeadItem i = true)
     (hq : strsQ (printTsDoc (C16.serverDoc d modelPlugin)) = true) :
     serverGraphqlOutput d modelPlugin = serverModule (ops (printTsDoc (C16.serverDoc d modelPlugin))) ∧
     ∃ v, cook ('\n' :: runOps true {} (ops (printTsDoc (C16.serverDoc d modelPlugin)))) = some v ∧
@@ -204,10 +307,56 @@ theorem server_module_roundtrip_own_partial (d : TsDoc) (modelPlugin : Bool) (h1
     | false => simp [C16.strip_exact d h1]
     | true => simp [C16.strip_exact d h1, C16.strip_model_exact _ (h2 rfl)]
   refine ⟨hmod, _, C16.server_template_cooks _ (nameOK_tsDoc _ hwf hok), ?_⟩
-  have hr := own_text_ts_noLead _ hwf hok hnl hq ['\n'] (by simp [isGapC])
-  have := C07.parse_render_type_system_document_erase _
-    (ws_gaps (['\n'] ++ text (printTsDoc (C16.serverDoc d modelPlugin)))) _ hne hwf hn
+  have hr := own_text_ts _ hwf hok hq ['\n'] (by simp [isGapC])
+  have := parseTs_lead_erase _ (ws_gaps (['\n'] ++ text (printTsDoc (C16.serverDoc d modelPlugin)))) _ hne hwf hn
   rw [hr] at this
   exact this
+
+/-- a checked document with both nitrogql-only directives, for the satisfiability of the hypotheses -/
+def sampleCheckedOwn : TsDoc := [
+  .typeDef { kind := .scalar, name := "Date", desc := some "a date", dirs := [{ name := "nitrogql_ts_type", args := [("resolverInput", {}, .str "string" {})] }, { name := "specifiedBy" }] },
+  .directiveDef { name := "nitrogql_ts_type", args := [{ name := "resolverInput", ty := .nonNull (.named "String" {}) }], locations := ["SCALAR"] },
+  .directiveDef { name := "model", locations := ["OBJECT", "FIELD_DEFINITION"] },
+  .typeDef { kind := .object, name := "User", dirs := [{ name := "model" }],
+             fields := [{ name := "id", ty := .nonNull (.named "ID" {}), dirs := [{ name := "model" }, { name := "deprecated" }] },
+                        { name := "born", ty := .named "Date" {} }] }]
+
+example : C16.OnlyOnScalars nitroName sampleCheckedOwn ∧
+    C16.OnlyOnObjects modelName (Strip.stripDirective nitroName sampleCheckedOwn) ∧
+    C16.serverDoc sampleCheckedOwn true ≠ [] ∧ (∀ i ∈ C16.serverDoc sampleCheckedOwn true, WFTsItem i ∧ NormalItem i ∧ itemOK i = true) ∧
+    strsQ (printTsDoc (C16.serverDoc sampleCheckedOwn true)) = true := by
+  have vn : ∀ w : List Char, validNameB w = true → validName w := fun w h => validName_of_B h
+  have sampleCheckedOwn_server : C16.serverDoc sampleCheckedOwn true = [
+      .typeDef { kind := .scalar, name := "Date", desc := some "a date", dirs := [{ name := "specifiedBy" }] },
+      .typeDef { kind := .object, name := "User",
+                 fields := [{ name := "id", ty := .nonNull (.named "ID" {}), dirs := [{ name := "deprecated" }] },
+                            { name := "born", ty := .named "Date" {} }] }] := by rfl
+  refine ⟨?_, ?_, ?_, ?_, ?_⟩
+  · intro i hi
+    simp only [sampleCheckedOwn, List.mem_cons, List.mem_nil_iff, or_false] at hi
+    rcases hi with rfl | rfl | rfl | rfl <;> decide
+  · have e : Strip.stripDirective nitroName sampleCheckedOwn = [
+        .typeDef { kind := .scalar, name := "Date", desc := some "a date", dirs := [{ name := "specifiedBy" }] },
+        .directiveDef { name := "model", locations := ["OBJECT", "FIELD_DEFINITION"] },
+        .typeDef { kind := .object, name := "User", dirs := [{ name := "model" }],
+                   fields := [{ name := "id", ty := .nonNull (.named "ID" {}), dirs := [{ name := "model" }, { name := "deprecated" }] },
+                              { name := "born", ty := .named "Date" {} }] }] := by rfl
+    rw [e]
+    intro i hi
+    simp only [List.mem_cons, List.mem_nil_iff, or_false] at hi
+    rcases hi with rfl | rfl | rfl <;> decide
+  · rw [sampleCheckedOwn_server]; simp
+  · rw [sampleCheckedOwn_server]
+    intro i hi
+    simp only [List.mem_cons, List.mem_nil_iff, or_false] at hi
+    rcases hi with rfl | rfl
+    · exact ⟨⟨vn _ (by decide), ⟨⟨vn _ (by decide), trivial⟩, trivial⟩, trivial⟩, by simp [NormalItem, KindNormal], by decide⟩
+    · refine ⟨⟨vn _ (by decide), trivial, by simp, ?_, Or.inr (by simp)⟩, by simp [NormalItem, KindNormal], by decide⟩
+      intro f hf
+      simp only [List.mem_cons, List.mem_nil_iff, or_false] at hf
+      rcases hf with rfl | rfl
+      · exact ⟨vn _ (by decide), by simp, ⟨vn _ (by decide), rfl⟩, ⟨vn _ (by decide), trivial⟩, trivial⟩
+      · exact ⟨vn _ (by decide), by simp, vn _ (by decide), trivial⟩
+  · rw [sampleCheckedOwn_server]; decide
 
 end NitroVerif.C16Own
